@@ -40,6 +40,9 @@ type C15W struct {
 	AbortSplit int `json:"abort_split,omitempty"`
 	Chunks     int `json:"chunks,omitempty"`
 	ChunkShape int `json:"chunk_shape,omitempty"` // see RTEnd.ChunkShape
+	// CancelStartCtx: the plugin starts its stub with a context of its own and cancels it once Start has
+	// returned (a plugin that only bounds its start-up); dispatch must not care
+	CancelStartCtx bool `json:"cancel_start_ctx,omitempty"`
 }
 
 func c15Gen(rng *rand.Rand, conf string, idx int) any {
@@ -109,6 +112,7 @@ func c15Gen(rng *rand.Rand, conf string, idx int) any {
 		w.Chunks = 2 + rng.Intn(3)
 		w.ChunkShape = rng.Intn(4)
 	}
+	w.CancelStartCtx = rng.Intn(4) == 0
 	ns := 1 + rng.Intn(3)
 	perm := rng.Perm(13)
 	k := 0
@@ -321,7 +325,16 @@ func c15Run(t *testing.T, wl any, sc SchedCfg) *Result {
 			res.Probe("C15.aborted-split-sync-before-the-session")
 		}
 		var startErr error
-		e.Task("start", func() { startErr = st.Start(context.Background()) })
+		e.Task("start", func() {
+			if w.CancelStartCtx {
+				ctx, cancel := context.WithCancel(context.Background())
+				startErr = st.Start(ctx)
+				cancel()
+				res.Probe("C15.start-context-cancelled-after-start")
+				return
+			}
+			startErr = st.Start(context.Background())
+		})
 		if err := e.RunUntil(200000, func() bool {
 			return e.TasksDone() && len(h.Ends) == base+1 && (h.Ends[base].IsReady() || h.Ends[base].IsDown() || startErr != nil)
 		}); err != nil {
